@@ -27,8 +27,9 @@ open AcmedVerif.Flow (Variant KeyId)
 
 /-- **(a) Requests go to endpoint `e` only.**  Every request of the synchronisation of `e` is sent
 through the `Endpoint` object `e`; an account creation to `e`'s `newAccount` URL with the key as
-`jwk`; a roll-over to `e`'s `keyChange` URL; a contact update to the URL it carries as `kid` (the
-`account_url` of the record of `e`). -/
+`jwk`; a roll-over to `e`'s `keyChange` URL; a contact update, and the queries of the account made
+by the roll-over block (since 5ce05e3 / 1fb1c1a), to the URL they carry as `kid` (the `account_url`
+of the record of `e`). -/
 theorem sync_requests_only_to_e (v : Variant) (e : EpName) (s : MWorld) :
     ∃ es, (synchronize v e s).2.log = s.log ++ es ∧ ∀ ev ∈ es, ReqOk e ev :=
   (ReqOk.synchronize v e).run s
@@ -166,49 +167,83 @@ theorem key_change_is_for_all_endpoints (a : Account) (contacts : Nat) (fresh : 
 
 /-- **The invariant `HeldAll`** — for every endpoint with an account URL: a key fingerprint is
 recorded, the CA of that endpoint holds exactly that key, and the account still has that key
-(current or past) — is kept by the synchronisation of ANY endpoint with ANY answers, whatever the
-outcome (failures included), by a (re)start with any configuration edit, and by a new endpoint
-name; hence along any history. -/
-theorem held_kept_by_sync (v : Variant) (e : EpName) (s : MWorld) (h : HeldAll s.acct) :
-    HeldAll (synchronize v e s).2.acct :=
-  (HeldR.synchronize v e).run s h
+(current or past) — is kept by the synchronisation of ANY endpoint, whatever the outcome (failures
+included), as long as no answer is LOST AFTER THE CA PROCESSED THE REQUEST (`NoLost`); by a (re)start
+with any configuration edit; and by a new endpoint name; hence along any history without such an
+answer. -/
+theorem held_kept_by_sync (v : Variant) (e : EpName) (s : MWorld) (hn : NoLost s.exs)
+    (h : HeldAll s.acct) : HeldAll (synchronize v e s).2.acct :=
+  ((HeldR.synchronize v e).run s hn h).1
+
+/-- **Without `NoLost` it is false** (what the ghost could not express before 5ce05e3: the CA's
+record moves only when the client sees a 2xx): the CA of endpoint 1 processes the roll-over 100 → 101
+and its answer is lost; the record still names key 100, the CA holds key 101. -/
+theorem held_kept_by_sync_full_is_false :
+    ∃ (s : MWorld), HeldAll s.acct ∧ ¬ HeldAll (synchronize .current 1 s).2.acct ∧
+      (synchronize .current 1 s).1.tag = .failed .keyChange ∧
+      ((synchronize .current 1 s).2.acct.getEndpoint 1).map (fun r => (r.keyHash, r.ca.key)) =
+        some (some 100, 101) :=
+  ⟨⟨⟨[(1, ⟨0, 11, 12, some 100, some 7, none, ⟨100, some 7⟩⟩)], ⟨7, 101, [100], none⟩⟩,
+     [.okOther, .lost], [], [], none⟩,
+   heldAllB_sound (by decide +kernel),
+   by
+    intro h
+    obtain ⟨k, h1, h2, _⟩ := h 1 ⟨0, 11, 12, some 100, some 7, none, ⟨101, some 7⟩⟩
+      (by decide +kernel) (by decide)
+    simp only [Option.some.injEq] at h1
+    subst h1
+    exact absurd h2 (by decide),
+   by decide +kernel, by decide +kernel⟩
+
+/-- **With lost answers**: the weaker invariant `HeldPAll` — the CA holds the recorded key OR the
+account's current key (a roll-over it processed whose answer was lost) — is kept by the
+synchronisation of ANY endpoint with ANY answers. -/
+theorem heldP_kept_by_sync (v : Variant) (e : EpName) (s : MWorld) (h : HeldPAll s.acct) :
+    HeldPAll (synchronize v e s).2.acct :=
+  (HeldPR.synchronize v e).run s h
 
 /-- A new account (no account file) satisfies it, and so does it with any endpoint names added. -/
 theorem held_of_new_account (contacts : Nat) (fresh : KeyId) (eab : Option Nat)
     (names : List EpName) :
     HeldAll (runOps (names.map .addEndpoint) (Account.create contacts fresh eab)) :=
-  HeldAll.runOps (fun _ _ h => by cases h) _
+  HeldAll.runOps (fun _ _ h => by cases h) _ (by
+    intro op hop
+    obtain ⟨n, _, rfl⟩ := List.mem_map.mp hop
+    trivial)
 
 theorem held_kept_by_load (a : Account) (h : HeldAll a) (contacts : Nat) (keyChanged : Bool)
     (fresh : KeyId) (eab : Option Nat) : HeldAll (a.load contacts keyChanged fresh eab) :=
   h.load contacts keyChanged fresh eab
 
-theorem held_kept_by_history (a : Account) (h : HeldAll a) (ops : List Op) :
-    HeldAll (runOps ops a) :=
-  h.runOps ops
+theorem held_kept_by_history (a : Account) (h : HeldAll a) (ops : List Op)
+    (hn : ∀ op ∈ ops, op.noLost) : HeldAll (runOps ops a) :=
+  h.runOps ops hn
 
 /-- **Roll-overs are authorised by the key the endpoint's own CA holds** (current order of the
 updates, `v.keyFirst`).  When the record of `e` satisfies `Held`, the synchronisation of `e` sends
-no keyChange request at all, or exactly one, as its FIRST request: through `e`, to `e`'s
-`keyChange` URL, `kid` = the recorded account URL, signed by the key the CA of `e` holds — a past
-key of the account, different from the current one. -/
+no keyChange request at all, or exactly one: through `e`, to `e`'s `keyChange` URL, `kid` = the
+recorded account URL, signed by the key the CA of `e` holds — a past key of the account, different
+from the current one; it is the first request, or (since 1fb1c1a) the second, after the query of the
+account (through `e`, to the recorded account URL) signed by that same key. -/
 theorem rollover_authorised_by_held_key (v : Variant) (hv : v.keyFirst = true) (e : EpName)
     (s : MWorld) (r0 : EpRec) (hk : s.acct.getEndpoint e = some r0)
     (hh : Held s.acct.shared r0) :
     ∃ es, (synchronize v e s).2.log = s.log ++ es ∧
-      ((∀ ev ∈ es, NotKeyChange ev) ∨ ∃ a rest,
-        es = .req e .keyChange (.dirKeyChange e) r0.ca.key r0.accountUrl a :: rest ∧
+      ((∀ ev ∈ es, NotKeyChange ev) ∨ ∃ a pre rest,
+        es = pre ++ .req e .keyChange (.dirKeyChange e) r0.ca.key r0.accountUrl a :: rest ∧
+        (pre = [] ∨ ∃ p, pre =
+          [.req e .accountProbe (.url r0.accountUrl) r0.ca.key r0.accountUrl p]) ∧
         r0.ca.key ∈ s.acct.shared.pastKeys ∧ r0.ca.key ≠ s.acct.shared.currentKey ∧
         ∀ ev ∈ rest, NotKeyChange ev) := by
   obtain ⟨es, he, hs⟩ := synchronize_shape v hv e s r0 hk
   refine ⟨es, he, ?_⟩
-  rcases hs with hs | ⟨old, a, rest, g1, g2, g3, g4, g5, g6⟩
+  rcases hs with hs | ⟨old, a, pre, rest, g1, g2, g3, g4, g5, g7, g6⟩
   · exact .inl hs
   · obtain ⟨k, k1, k2, _⟩ := hh g4
     have : old = k := by rw [g1] at k1; exact Option.some.inj k1
     subst this
     rw [k2]
-    exact .inr ⟨a, rest, g5, g2, g3, g6⟩
+    exact .inr ⟨a, pre, rest, g5, g7, g2, g3, g6⟩
 
 /-- **The record of `e` and its CA are brought into line** (current order of the updates).
 Whenever the synchronisation of `e` returns (no `Location` header of the script being empty): the
@@ -217,7 +252,7 @@ the configured binding; and, `HeldAll` holding before, the CA of `e` holds the c
 (Through `sync_refines_flow` and `Props.C11.sync_converges`.) -/
 theorem sync_brings_into_line (v : Variant) (hv : v.keyFirst = true) (e : EpName) (s s' : MWorld)
     (r0 : EpRec) (u : Unit) (hk : s.acct.getEndpoint e = some r0)
-    (hn : ∀ o ex, Ans.account ⟨some 0, o, ex⟩ ∉ s.exs) (hh : HeldAll s.acct)
+    (hn : ∀ o ex, Ans.account ⟨some 0, o, ex⟩ ∉ s.exs) (hh : HeldAll s.acct) (hnl : NoLost s.exs)
     (hrun : synchronize v e s = (.val u, s')) :
     s'.acct.shared = s.acct.shared ∧
     ∃ r', s'.acct.getEndpoint e = some r' ∧ r'.accountUrl ≠ 0 ∧
@@ -229,7 +264,7 @@ theorem sync_brings_into_line (v : Variant) (hv : v.keyFirst = true) (e : EpName
     have := (sync_other_records_untouched v e s).1
     rw [hrun] at this; exact this
   have hheld : HeldAll s'.acct := by
-    have := held_kept_by_sync v e s hh
+    have := held_kept_by_sync v e s hnl hh
     rw [hrun] at this; exact this
   have hsim := synchronize_sim v hv (simR_view hk hn)
     (by intro r hr; rw [hk] at hr; cases hr; rfl)
@@ -272,18 +307,22 @@ theorem sync_brings_into_line (v : Variant) (hv : v.keyFirst = true) (e : EpName
 /-- **After a key change, an endpoint whose CA still holds the old key is brought into line at ITS
 next synchronisation, authorised by the key ITS CA holds** — whatever happened in between: the
 synchronisation of other endpoints (first, successfully or not), further key changes, contact or
-binding edits, restarts, new endpoints.  From an account satisfying `HeldAll` (e.g. a new one, or
+binding edits, restarts, new endpoints — as long as no answer was lost after the CA had processed
+the request (`noLost`; for that case see `Props/C11Lost.lean`).  From an account satisfying `HeldAll` (e.g. a new one, or
 one whose endpoints are all in line), after ANY history `ops`, for ANY endpoint `e'` with a record:
 (1) its synchronisation sends no keyChange request, or exactly one, first, signed by the key the
 CA of `e'` holds (`kid` = the recorded URL, through `e'`); (2) if it returns, the record of `e'` is
 in line with the configuration and the CA of `e'` holds the current key. -/
 theorem other_endpoint_brought_into_line_later (a : Account) (h : HeldAll a) (ops : List Op)
+    (hnl : ∀ op ∈ ops, op.noLost)
     (v : Variant) (hv : v.keyFirst = true) (e' : EpName) (exs : List Ans) (hks : List Bool)
     (r0 : EpRec) (hk : (runOps ops a).getEndpoint e' = some r0)
-    (hn : ∀ o ex, Ans.account ⟨some 0, o, ex⟩ ∉ exs) :
+    (hn : ∀ o ex, Ans.account ⟨some 0, o, ex⟩ ∉ exs) (hnx : NoLost exs) :
     (∃ es, (synchronize v e' ⟨runOps ops a, exs, hks, [], none⟩).2.log = es ∧
-      ((∀ ev ∈ es, NotKeyChange ev) ∨ ∃ ans rest,
-        es = .req e' .keyChange (.dirKeyChange e') r0.ca.key r0.accountUrl ans :: rest ∧
+      ((∀ ev ∈ es, NotKeyChange ev) ∨ ∃ ans pre rest,
+        es = pre ++ .req e' .keyChange (.dirKeyChange e') r0.ca.key r0.accountUrl ans :: rest ∧
+        (pre = [] ∨ ∃ p, pre =
+          [.req e' .accountProbe (.url r0.accountUrl) r0.ca.key r0.accountUrl p]) ∧
         r0.ca.key ∈ (runOps ops a).shared.pastKeys ∧
         r0.ca.key ≠ (runOps ops a).shared.currentKey ∧ ∀ ev ∈ rest, NotKeyChange ev)) ∧
     (∀ u s', synchronize v e' ⟨runOps ops a, exs, hks, [], none⟩ = (.val u, s') →
@@ -292,13 +331,13 @@ theorem other_endpoint_brought_into_line_later (a : Account) (h : HeldAll a) (op
         r'.contactsHash = some (runOps ops a).shared.contacts ∧
         bindingChanged (runOps ops a).shared r' = false ∧
         r'.ca.key = (runOps ops a).shared.currentKey) := by
-  have hh := held_kept_by_history a h ops
+  have hh := held_kept_by_history a h ops hnl
   constructor
   · obtain ⟨es, he, hs⟩ := rollover_authorised_by_held_key v hv e'
       ⟨runOps ops a, exs, hks, [], none⟩ r0 hk (hh e' r0 hk)
     exact ⟨es, by simpa using he, hs⟩
   · intro u s' hrun
-    exact (sync_brings_into_line v hv e' ⟨runOps ops a, exs, hks, [], none⟩ s' r0 u hk hn hh
+    exact (sync_brings_into_line v hv e' ⟨runOps ops a, exs, hks, [], none⟩ s' r0 u hk hn hh hnx
       hrun).2
 
 /-! ### Refinement -/
@@ -376,17 +415,18 @@ def acct0 : Account :=
 def acct1 : Account := acct0.load 7 true 101 none
 
 /-- The renewal on endpoint 1 comes first; its CA accepts the roll-over. -/
-def w1 : MWorld := ⟨acct1, [.okOther], [true, true], [], none⟩
+def w1 : MWorld := ⟨acct1, [.okOther, .okOther], [true, true], [], none⟩
 
 /-- The same, except that endpoint 2 was never registered, a third endpoint exists, and the
 file on disk is something else. -/
 def w1' : MWorld :=
   ⟨⟨[(3, ⟨0, 31, 0, some 55, none, none, ⟨55, none⟩⟩), (2, EpRec.new),
      (1, ⟨0, 11, 12, some 100, some 7, none, ⟨100, some 7⟩⟩)], acct1.shared⟩,
-   [.okOther], [true, true], [], some acct0⟩
+   [.okOther, .okOther], [true, true], [], some acct0⟩
 
 /-- Afterwards: endpoint 2's turn. -/
-def w2 : MWorld := ⟨(synchronize .current 1 w1).2.acct, [.okOther], [true, true], [], none⟩
+def w2 : MWorld :=
+  ⟨(synchronize .current 1 w1).2.acct, [.okOther, .okOther], [true, true], [], none⟩
 
 example : HeldAll acct0 := heldAllB_sound (by decide +kernel)
 
@@ -397,13 +437,14 @@ example : acct0.getEndpoint 2 = some ⟨0, 21, 22, some 100, some 7, none, ⟨10
     (viewAcc acct1.shared ⟨0, 21, 22, some 100, some 7, none, ⟨100, some 7⟩⟩).keyInSync = false := by
   decide +kernel
 
-/-- (a), (b): the synchronisation of endpoint 1 sends one request, the roll-over, through endpoint
-1, signed by the old key; the record of endpoint 2 is as before and still carries the old
+/-- (a), (b): the synchronisation of endpoint 1 sends two requests, the query of the account and the
+roll-over, through endpoint 1, both signed by the old key; the record of endpoint 2 is as before and still carries the old
 fingerprint; the current key is shared and unchanged. -/
 example :
     (synchronize .current 1 w1).1.tag = .ok ∧
     (synchronize .current 1 w1).2.log =
-      [.req 1 .keyChange (.dirKeyChange 1) 100 11 .okOther, .hooks .filePre true, .saveAccount,
+      [.req 1 .accountProbe (.url 11) 100 11 .okOther,
+       .req 1 .keyChange (.dirKeyChange 1) 100 11 .okOther, .hooks .filePre true, .saveAccount,
        .hooks .filePost true] ∧
     (synchronize .current 1 w1).2.acct.getEndpoint 1 =
       some ⟨0, 11, 12, some 101, some 7, none, ⟨101, some 7⟩⟩ ∧
@@ -433,7 +474,8 @@ example :
     w2.acct.getEndpoint 2 = some ⟨0, 21, 22, some 100, some 7, none, ⟨100, some 7⟩⟩ ∧
     (synchronize .current 2 w2).1.tag = .ok ∧
     (synchronize .current 2 w2).2.log =
-      [.req 2 .keyChange (.dirKeyChange 2) 100 21 .okOther, .hooks .filePre true, .saveAccount,
+      [.req 2 .accountProbe (.url 21) 100 21 .okOther,
+       .req 2 .keyChange (.dirKeyChange 2) 100 21 .okOther, .hooks .filePre true, .saveAccount,
        .hooks .filePost true] ∧
     (synchronize .current 2 w2).2.acct.getEndpoint 2 =
       some ⟨0, 21, 22, some 101, some 7, none, ⟨101, some 7⟩⟩ ∧
@@ -445,8 +487,8 @@ example :
 next synchronisation fails, a third endpoint is added; then endpoint 2 renews: one roll-over
 100 → 102, signed by key 100 (the key its CA holds), and its CA ends with key 102. -/
 def history : List Op :=
-  [.load 7 true 101 none, .sync .current 1 [.okOther] [true, true], .load 7 true 102 none,
-   .sync .current 1 [.otherErr] [], .addEndpoint 3]
+  [.load 7 true 101 none, .sync .current 1 [.okOther, .okOther] [true, true],
+   .load 7 true 102 none, .sync .current 1 [.otherErr] [], .addEndpoint 3]
 
 example :
     (runOps history acct0).getEndpoint 2 =
@@ -454,21 +496,30 @@ example :
     (runOps history acct0).getEndpoint 1 =
       some ⟨0, 11, 12, some 101, some 7, none, ⟨101, some 7⟩⟩ ∧
     (runOps history acct0).shared = ⟨7, 102, [100, 101], none⟩ ∧
-    (∀ o ex, Ans.account ⟨some 0, o, ex⟩ ∉ [Ans.okOther]) ∧
-    (synchronize .current 2 ⟨runOps history acct0, [.okOther], [true, true], [], none⟩).1.tag = .ok ∧
-    (synchronize .current 2 ⟨runOps history acct0, [.okOther], [true, true], [], none⟩).2.log.head? =
-      some (.req 2 .keyChange (.dirKeyChange 2) 100 21 .okOther) ∧
-    (synchronize .current 2 ⟨runOps history acct0, [.okOther], [true, true], [], none⟩).2.acct.getEndpoint 2 =
+    (∀ o ex, Ans.account ⟨some 0, o, ex⟩ ∉ [Ans.okOther, Ans.okOther]) ∧
+    (∀ op ∈ history, op.noLost) ∧
+    (synchronize .current 2
+      ⟨runOps history acct0, [.okOther, .okOther], [true, true], [], none⟩).1.tag = .ok ∧
+    (synchronize .current 2
+      ⟨runOps history acct0, [.okOther, .okOther], [true, true], [], none⟩).2.log.take 2 =
+      [.req 2 .accountProbe (.url 21) 100 21 .okOther,
+       .req 2 .keyChange (.dirKeyChange 2) 100 21 .okOther] ∧
+    (synchronize .current 2
+      ⟨runOps history acct0, [.okOther, .okOther], [true, true], [], none⟩).2.acct.getEndpoint 2 =
       some ⟨0, 21, 22, some 102, some 7, none, ⟨102, some 7⟩⟩ := by
-  refine ⟨by decide +kernel, by decide +kernel, by decide +kernel, by simp, by decide +kernel,
+  refine ⟨by decide +kernel, by decide +kernel, by decide +kernel, by simp, ?_, by decide +kernel,
     by decide +kernel, by decide +kernel⟩
+  intro op hop
+  simp only [history, List.mem_cons, List.mem_nil_iff, or_false] at hop
+  rcases hop with rfl | rfl | rfl | rfl | rfl <;> simp [Op.noLost, NoLost]
 
 /-- `sync_refines_flow`: its hypotheses hold of `w1`, and the `Flow` run is the roll-over. -/
 example : w1.acct.getEndpoint 1 = some ⟨0, 11, 12, some 100, some 7, none, ⟨100, some 7⟩⟩ ∧
     (∀ o ex, Ans.account ⟨some 0, o, ex⟩ ∉ w1.exs) ∧
     (Flow.synchronize .current
-      (viewWorld w1 ⟨0, 11, 12, some 100, some 7, none, ⟨100, some 7⟩⟩)).2.trace.head? =
-      some (.exch .keyChange .kid 100 (.ok .undecodable)) := by
+      (viewWorld w1 ⟨0, 11, 12, some 100, some 7, none, ⟨100, some 7⟩⟩)).2.trace.take 2 =
+      [.exch .accountProbe .kid 100 (.ok .undecodable),
+       .exch .keyChange .kid 100 (.ok .undecodable)] := by
   refine ⟨by decide +kernel, ?_, by decide +kernel⟩
   intro o ex h
   simp [w1] at h
@@ -476,7 +527,7 @@ example : w1.acct.getEndpoint 1 = some ⟨0, 11, 12, some 100, some 7, none, ⟨
 /-- `ghost_not_read`: two states that differ in a ghost only. -/
 example : RelG w1 ⟨⟨[(1, ⟨0, 11, 12, some 100, some 7, none, ⟨5, none⟩⟩),
     (2, ⟨0, 21, 22, some 100, some 7, none, ⟨100, some 7⟩⟩)], acct1.shared⟩,
-    [.okOther], [true, true], [], none⟩ := by
+    [.okOther, .okOther], [true, true], [], none⟩ := by
   unfold RelG
   decide +kernel
 
